@@ -75,6 +75,20 @@ theorem fista_result_at_last_head (P : Problem α) (pr : Params α) (stop : Nat 
   · unfold headStep; simp only []; split_ifs <;> rfl
   · unfold headStep; simp only []; split_ifs <;> rfl
 
+/-- **ε is computed from data of the final iterate only**: at every loop head (in particular the
+    last one) the `∇ψ(x̂)` that the criteria ApproxKKT / ApproxKKT2 / Ipopt read is the `eval_grad_L`
+    oracle's answer at the iterate's *own* `x̂`, `ŷ(x̂)` — also after step-size backtracking
+    (in the source this is `eval_grad_ψx̂` placed after the quadratic-upper-bound loop; before the
+    repair it preceded the loop and ε was computed from ∇ψ of a rejected `x̂`). -/
+theorem fista_eps_fresh_gradient (P : Problem α) (pr : Params α) (s : St α)
+    (hn : requiresGradHat pr.stopCrit = true) :
+    (proxStage P pr s).curr.gradPsiHat
+        = P.gradL (proxStage P pr s).curr.xhat (proxStage P pr s).curr.yhat ∧
+    (proxStage P pr s).curr.yhat = (P.psi (proxStage P pr s).curr.xhat).2 := by
+  refine ⟨proxStage_gradHat P pr s hn, (proxStage_good P pr s).2 ?_⟩
+  have : needGradHat pr = true := hn
+  simp [this]
+
 /-! ### Consequences of the generated chain (`Props/C06`) for FISTA's returned status -/
 
 /-- `Converged` is returned exactly when the returned ε meets the (effective) tolerance. -/
